@@ -153,18 +153,21 @@ func (e *Engine) NonIncrementallySearching() (searching, forward, substring bool
 }
 
 func (e *Engine) updateIncrementalSearch() {
-	var regexStr string
-	if hasUpper(*e.isearchBuf) {
-		regexStr = string(*e.isearchBuf)
-	} else {
-		regexStr = "(?i)" + string(*e.isearchBuf)
+	var regexStr, flags string
+	if !hasUpper(*e.isearchBuf) {
+		flags = "(?i)"
 	}
+
+	regexStr = flags + string(*e.isearchBuf)
 
 	var err error
 
+	// What has been typed so far might not be a valid regular expression
+	// (an opening bracket, a trailing backslash...): search for it as is,
+	// rather than without any filter at all.
 	e.IsearchRegex, err = regexp.Compile(regexStr)
 	if err != nil {
-		e.hint.Set(color.FgRed + "Failed to compile i-search regexp")
+		e.IsearchRegex = regexp.MustCompile(flags + regexp.QuoteMeta(string(*e.isearchBuf)))
 	}
 
 	// Refresh completions with the current minibuffer as a filter.
